@@ -41,9 +41,7 @@ func init() {
 		kindsTable(c)
 		flagFlow(c, "fmt")
 		// what reaches stdout or the -out file is exactly what Mock wrote (no re-printing, no extra bytes)
-		if cl := cli(c); cl != nil {
-			gen.CheckAllOrNothingCLI(c.Run, c.Prog, cl)
-		}
+		cliAllOrNothing(c)
 		genFormat(c)
 	})
 	register("C20", "other", func(c *Ctx) {
